@@ -92,13 +92,19 @@ def gen_case(rng, i, tier):
     return {"layout": layout, "registry": reg, "apos": apos, "query": q, "adims": adims, "extra": extra,
             "mseed": rng.getrandbits(31), "dseed": rng.getrandbits(31), "periodic": rng.random() < 0.3, "time_dependent": tdep, "cross": cross,
             # the data may be integer-typed (counts), a boolean mask or single precision: "for all data values"
-            "dtype": rng.choice(["float64"] * 7 + ["int64", "bool", "float32"])}
+            "dtype": rng.choice(["float64"] * 7 + ["int64", "bool", "float32"]),
+            # dimensions with coordinate variables, without, or mixed
+            "withdim": rng.choice([True, True, True, False, "mixed"])}
 
 
 def build(desc):
     from xgcm import Grid
 
-    ds = gen.build_ds(desc["layout"], extra=desc["extra"])
+    wd = desc.get("withdim", True)
+    if wd == "mixed":
+        rr = np.random.default_rng(desc["mseed"] + 1)
+        wd = [d for a in desc["layout"]["axes"] for _, d in a["pos"] if rr.random() < 0.5]
+    ds = gen.build_ds(desc["layout"], with_coords=wd, extra=desc["extra"])
     cm = gen.layout_coords(desc["layout"])
     r = np.random.default_rng(desc["mseed"])
     mets = {}
